@@ -23,7 +23,9 @@
      osmChange blocks (there scan = flatten(decode) is FALSE — the interleaved_blocks example —
      and only the sub-sequence formulation can hold), children reordered across names, explicit
      default attribute values, known names in foreign places; building blocks for them:
-     decoder_is_fieldwise, field_skips_foreign_children, unknown_attr_ignored, unknown_child_ignored,
+     decode_faithful_osm_any_child_order (cross-name order at the top level of <osm>: PROVED in wave 5),
+     decoder_independent_of_child_interleaving, decoder_is_fieldwise, field_skips_foreign_children,
+     unknown_attr_ignored, unknown_child_ignored,
      attribute_order_irrelevant (one attribute list; not lifted to documents).
    REFUTED on the real code (known findings, known_findings.d/C03.json): scanner = decoder fails when
      an unknown element wraps an object element, and when an element is named like an object kind
@@ -32,7 +34,7 @@
    tree model (DESIGN section 7) and exercised by the independent writer of the harness. *)
 From Coq Require Import List String Bool ZArith Permutation.
 From Verif Require Import Codec.Schema Codec.Value Codec.Xml Codec.Wf Codec.Scan Codec.ProofsAttr Codec.ProofsKids
-     Codec.ProofsRT C03.Spec C03.Proofs C03.Noise C03.Faithful.
+     Codec.ProofsRT C04.Roundtrip C03.Spec C03.Proofs C03.Noise C03.Faithful.
 From VerifGen Require Import GenSchema.
 Import ListNotations.
 Open Scope string_scope.
@@ -59,6 +61,32 @@ Theorem scanner_eq_decode_partial : forall T v doc e,
   decode gen_schema T doc = Ok v /\ scan_el gen_schema doc = (flatten T v, None).
 Proof. exact scanner_eq_decode_gen. Qed.
 Print Assumptions scanner_eq_decode_partial.
+
+(* --- children order across names (wave 5): an <osm> document whose children come in ANY order
+       that keeps the order within each kind (node, way, node, ...; bounds anywhere), with any
+       elements added that are none of its children, decodes to the value written.
+       [same_per_field]: for every field of the OSM struct the sub-sequence of its own children is
+       the canonical one. --- *)
+Theorem decode_faithful_osm_any_child_order : forall v,
+  wfb gen_schema "OSM" v = true ->
+  exists al kids,
+    encode1 gen_schema "OSM" v = Ok (Elem "osm" al kids (AStr []))
+    /\ forall kids' t, same_per_field gen_schema (struct_fields (d_of "OSM")) kids kids' ->
+                       decode gen_schema "OSM" (Elem "osm" al kids' t) = Ok v.
+Proof. exact osm_any_child_order. Qed.
+Print Assumptions decode_faithful_osm_any_child_order.
+
+(* the generic form, for any struct element: if the per-field folds of the children succeed, the
+   decoder returns them for ANY interleaving that keeps each field's own sequence — this is what
+   makes repeated / interleaved blocks and cross-name order irrelevant at one level *)
+Theorem decoder_independent_of_child_interleaving : forall sch unm kids kids' fs st st',
+  parents_ok fs = true ->
+  nodup_strb (elem_keys sch fs) = true ->
+  same_per_field sch fs kids kids' ->
+  Forall3 (fun f x x' => absorb_kids sch unm f x kids = Ok x') fs st st' ->
+  unmarshal_kids sch unm fs st [] false kids' = Ok st'.
+Proof. exact kids_any_interleaving. Qed.
+Print Assumptions decoder_independent_of_child_interleaving.
 
 (* --- the generic invariance behind both, for any schema closed under the unknown predicate:
        decoder and scanner do not see the noise --- *)
